@@ -79,6 +79,27 @@ func (f *Frame) lookupVar(name string, b *ssa.BasicBlock, idx int, st *State) (*
 		}
 		return v, true
 	}
+	// a local variable declared in a branch that does not dominate this point (e.g. `var p T` inside an
+	// if-block, referred to at the return): its cell exists as a term once the branch was executed; the
+	// clause that mentions it has to be guarded by the branch condition
+	var only *varRef
+	for k := range refs {
+		r := &refs[k]
+		if _, isAlloc := r.val.(*ssa.Alloc); !isAlloc || !r.addr {
+			continue
+		}
+		if _, ok := f.vals[r.val]; !ok {
+			continue
+		}
+		if only != nil && only.val != r.val {
+			only = nil
+			break
+		}
+		only = r
+	}
+	if only != nil {
+		return f.load(st, f.val(only.val)), true
+	}
 	// parameters and free variables
 	for _, p := range f.fn.Params {
 		if p.Name() == name {
@@ -96,6 +117,29 @@ func (f *Frame) lookupVar(name string, b *ssa.BasicBlock, idx int, st *State) (*
 		}
 	}
 	return nil, false
+}
+
+// lookupVarAddr returns the cell of the (unique, already executed) addressable local variable name.
+func (f *Frame) lookupVarAddr(name string) (*V, bool) {
+	var only *varRef
+	refs := f.varRefs[name]
+	for k := range refs {
+		r := &refs[k]
+		if _, isAlloc := r.val.(*ssa.Alloc); !isAlloc || !r.addr {
+			continue
+		}
+		if _, ok := f.vals[r.val]; !ok {
+			continue
+		}
+		if only != nil && only.val != r.val {
+			return nil, false
+		}
+		only = r
+	}
+	if only == nil {
+		return nil, false
+	}
+	return f.val(only.val), true
 }
 
 // ---------------------------------------------------------------------------
